@@ -8,11 +8,6 @@ import ZepidVerif.Lemmas.CellFit
 namespace ZV
 variable {F : Type} [Field F] {α β : Type}
 
-theorem sumBy_map (f : β → F) (g : α → β) (l : List α) : sumBy f (l.map g) = sumBy (fun x => f (g x)) l := by
-  induction l with
-  | nil => simp
-  | cons x l ih => simp [ih]
-
 /-- **core**: `Σ k·f(x)` over (x, k) pairs = `Σ f` over the list with x repeated k times -/
 theorem sumBy_mult (f : α → F) (l : List (α × Nat)) :
     sumBy (fun x => (x.2 : F) * f x.1) l = sumBy f (l.flatMap fun x => List.replicate x.2 x.1) := by
